@@ -74,4 +74,54 @@ def walkCjk (next : Nat → Option Nat) (first : Nat) (stop valid : Nat → Bool
       | some nx => if valid nx then walkCjk next first stop valid fuel nx else true
       | none => true
 
+/-! ### All edges of an axis: one `edge_next_ix` array shared by all rings -/
+
+/-- (first_ix, last_ix, ghost member list) of one edge -/
+structure Entry where
+  first : Nat
+  last : Nat
+  ms : List Nat
+
+/-- `axis.edges` (identified by creation order `0 … count-1`; `insert_edge` moves the records around in the Rust
+array but each keeps its `first_ix` / `last_ix`), the shared `edge_next_ix` array, and — ghost — the segment indices
+linked so far, newest first -/
+structure Axis where
+  next : Nat → Option Nat
+  edge : Nat → Entry
+  count : Nat
+  linked : List Nat
+
+def Axis.ring (g : Axis) (j : Nat) : Ring := ⟨g.next, (g.edge j).first, (g.edge j).last, (g.edge j).ms⟩
+
+def Axis.empty (next : Nat → Option Nat) : Axis := ⟨next, fun _ => ⟨0, 0, []⟩, 0, []⟩
+
+inductive GOp where
+  /-- "we couldn't find an edge": a new edge for segment `seg` -/
+  | newEdge (seg : Nat)
+  /-- `append_segment_to_edge(seg, k)` -/
+  | append (k seg : Nat)
+
+def GOp.seg : GOp → Nat
+  | .newEdge seg => seg
+  | .append _ seg => seg
+
+def GOp.run (g : Axis) : GOp → Axis
+  | .newEdge seg =>
+    ⟨upd g.next seg (some seg), fun j => if j = g.count then ⟨seg, seg, [seg]⟩ else g.edge j, g.count + 1, seg :: g.linked⟩
+  | .append k seg =>
+    let e := g.edge k
+    ⟨upd (upd g.next seg (some e.first)) e.last (some seg),
+     fun j => if j = k then ⟨e.first, seg, seg :: e.ms⟩ else g.edge j, g.count, seg :: g.linked⟩
+
+/-- an operation of `compute_edges` is admissible when its segment has not been linked before and the edge it
+appends to exists -/
+def GOp.ok (g : Axis) : GOp → Prop
+  | .newEdge seg => seg ∉ g.linked
+  | .append k seg => seg ∉ g.linked ∧ k < g.count
+
+/-- all operations of a sequence are admissible when they are reached -/
+def AllOk : Axis → List GOp → Prop
+  | _, [] => True
+  | g, op :: rest => op.ok g ∧ AllOk (op.run g) rest
+
 end FontVerif.EdgeRing
